@@ -319,6 +319,13 @@ func c11Run(c core.Case) core.Result {
 		case 4:
 			tpls["main"] = "A{% include 'host' %}Z"
 			want = "A" + want + "Z"
+		case 6: // the child's overriding block makes the call; the macro is the parent's
+			tpls["host"] = "{% macro w(a) %}<{{ a }}>{% endmacro %}" + c11MacroDef("m", p) + "H[{% block body %}-{% endblock %}|{% block other %}o{% endblock %}]"
+			tpls["main"] = "{% extends 'host' %}{% block body %}" + src + "{% endblock %}"
+		case 7: // an embed's override block calls the embedded template's macro
+			tpls["host"] = "{% macro w(a) %}<{{ a }}>{% endmacro %}" + c11MacroDef("m", p) + "H[{% block body %}-{% endblock %}|{% block other %}o{% endblock %}]"
+			tpls["main"] = "A{% embed 'host' %}{% block body %}" + src + "{% endblock %}{% endembed %}Z"
+			want = "A" + want + "Z"
 		case 5:
 			tpls["main"] = "{% extends 'mid' %}"
 			tpls["mid"] = "{% extends 'host' %}{% block other %}O2{% endblock %}"
@@ -336,6 +343,34 @@ func c11Run(c core.Case) core.Result {
 			return core.Violation("macro", fmt.Sprintf("renders\n    %q, want\n    %q\n    %s", out, want, desc))
 		}
 		return core.Okay(true, out)
+	case "ctxreuse":
+		// one context map passed to executions on two environments whose macro libraries have the same name and
+		// different bodies (and parameter orders): each execution calls its own environment's macros
+		form, order := c.N[0], c.N[1]
+		libs := []string{"{% macro m(a, b) %}v1<{{ a }}|{{ b }}>{% endmacro %}", "{% macro m(b, a) %}v2<{{ a }}|{{ b }}>{% endmacro %}{% macro extra() %}x{% endmacro %}"}
+		wants := []string{"v1<1|2>", "v2<2|1>"}
+		prelude, call, _ := c11Call(form%4, "'1', '2'")
+		main := prelude + "{{ " + call + " }}"
+		ctx := map[string]stick.Value{}
+		if order == 1 {
+			libs[0], libs[1] = libs[1], libs[0]
+			wants[0], wants[1] = wants[1], wants[0]
+		}
+		for i := 0; i < 2; i++ {
+			m := main
+			if form%4 == 0 {
+				m = libs[i] + main
+			}
+			var log []string
+			out, err, pan := tryExec(c11Env(map[string]string{"mac": libs[i], "main": m}, &log), "main", ctx)
+			if pan != "" || err != nil {
+				return core.Violation("error", fmt.Sprintf("execution %d of %q with library %q: %v %s", i+1, m, libs[i], err, pan))
+			}
+			if out != wants[i] {
+				return core.Violation("macro", fmt.Sprintf("execution %d with the context map of the previous execution: %q with library %q renders %q, want %q", i+1, m, libs[i], out, wants[i]))
+			}
+		}
+		return core.Okay(true, "ok")
 	case "unknown":
 		srcs := []string{
 			"{% import 'mac' as i %}a{{ i.nosuch(1) }}b",
@@ -424,14 +459,21 @@ func c11Levels(tier string) []core.Level {
 				}
 			}
 		}},
-		{Name: "a template calling its own macro through _self inside a block, rendered as parent (child with / without overrides, two levels), through embed (with / without overrides) and through include: 0..4 parameters x 0..6 arguments x 8 uses", Gen: func(emit func(core.Case)) {
+		{Name: "a template calling its own macro through _self inside a block, rendered as parent (child with / without overrides, two levels; the call written in the child's overriding block), through embed (with / without overrides; the call written in the override block) and through include: 0..4 parameters x 0..6 arguments x 8 uses", Gen: func(emit func(core.Case)) {
 			for p := 0; p <= 4; p++ {
 				for a := 0; a <= 6; a++ {
-					for how := 0; how < 6; how++ {
+					for how := 0; how < 8; how++ {
 						for use := 0; use < c11Uses; use++ {
 							emit(core.Case{Fam: "hosted", N: []int{p, a, how, use}})
 						}
 					}
+				}
+			}
+		}},
+		{Name: "one context map reused by executions on two environments with same-named, different macro libraries x 4 call forms x both orders", Gen: func(emit func(core.Case)) {
+			for form := 0; form < 4; form++ {
+				for order := 0; order < 2; order++ {
+					emit(core.Case{Fam: "ctxreuse", N: []int{form, order}})
 				}
 			}
 		}},
